@@ -84,5 +84,6 @@ def run_bio(case):
             return out
     out["rankings"] = [lib.observe_ranking(r, coder) for r in cons.consensus_rankings]
     out["score_before"] = lib.to_int(cons.features[ConsensusFeature.KEMENY_SCORE], s)
+    out["score_before_tol"] = lib.to_int_tol(cons.features[ConsensusFeature.KEMENY_SCORE], s)
     out["score"] = lib.to_int(cons.kemeny_score, s)
     return out
